@@ -91,7 +91,7 @@ PROPS = {
         "7 C05"),
     "C16": entry(
         "A failed flush or compaction changes nothing and can simply be retried",
-        [fsi("fault", "std", False, 4, 1), fsi("fault", "short", True, 3, 1)],
+        [fsi("fault", "std", False, 4, 1), fsi("fault", "short", True, 3, 1), fsi("fault", "gc", True, 4, 1)],
         "I-C(3): every k-th file-system syscall (create/open, write, fsync, rename, unlink, mkdir) issued inside an operation of the workload is failed once with EIO (writes/creates also ENOSPC) by strace fault injection; in the same process the harness then checks: result is Err or Ok, reads unchanged after an Err, no table left hidden, the retried call succeeds, reads equal the ordered-map oracle at every later quiescent point, final flush + reopen equals the oracle; non-trivial = distinct (op, syscall kind, outcome) classes",
         "Lean 4 theorems on the install-protocol automaton with failing actions + syscall fault enumeration against the real engine",
         "c16_failure_atomic / c16_retry_crash_atomic: stopping an accepted install at any action leaves (every crash outcome of) the state recoverable to old or new, before the rename to old only, with the old version's files untouched, and an accepted retry is again atomic.",
@@ -166,7 +166,7 @@ PROPS = {
         "7 C07", modules=["C07", "C04m"]),
     "C08": entry(
         "Key-value separation is invisible to the user",
-        [ib("all", 400, 15000, blob=1, ops=60), ib("reloc", 1500, 40000, blob=1, ops=70), ib("snap", 300, 10000, blob=1, ops=60), ib("filter", 200, 8000, blob=1, ops=60), ib("ingest", 300, 10000, blob=1, ops=60)],
+        [ib("all", 400, 15000, blob=1, ops=60), ib("reloc", 1500, 40000, blob=1, ops=70), ib("snap", 300, 10000, blob=1, ops=60), ib("filter", 200, 8000, blob=1, ops=60), ib("ingest", 300, 10000, blob=1, ops=60), ia("bigblob", 6, 48)],
         "I-B on key-value-separated trees (threshold 0/1/8/12/1000, blob file target 1 B .. 4 KiB, blob compression none / lz4, staleness 0.3, age cutoff 1.0): the same configuration-free model and ordered-map oracle as for standard trees; every stored pointer of every table of the current version AND of every version a held snapshot resolves to is decoded and resolved against that version's blob files and must yield the bytes written for that key and version; `reloc` profile: few keys, several live versions, ingestions (blobs stored with the local seqno 0) over flushed keys, blob files made partly stale by drop_range, relocating major compactions; non-trivial = >= 1 compaction and >= 2 flushes",
         TECH,
         "c08_separation_invisible: for every op list (entries value / tombstone, no compaction filter) the run of a key-value-separated tree equals the run of a standard tree up to erasing the indirection tag — same accepted decisions, same point reads, same scans (c08_point_reads, c08_scans); c08_gc_stream_commutes. C08r (relocation matching = drain_blobs + one scanner per rewritten blob file): c08r_fixed_matches_all — for ANY stored seqnos and any interleaving of pointers to different files, every pointer finds exactly its blob provided each file's pointers follow that file's order; c08r_fixed_never_wrong_blob — a success never copies another blob; c08r_legacy_counterexample — the merged scanner of the code before fix 4fe854b fails on finding F9's instance; c08r_legacy_ok_when_orders_agree.",
@@ -174,7 +174,7 @@ PROPS = {
         "7 C08", modules=["C08", "C08r"]),
     "C09": entry(
         "Blob garbage statistics are exact and only unreferenced blob files are dropped",
-        [ib("all", 400, 15000, blob=1, ops=60), ib("reloc", 1500, 40000, blob=1, ops=70), ib("drop", 300, 10000, blob=1, ops=60), ib("filter", 200, 8000, blob=1, ops=60)],
+        [ib("all", 400, 15000, blob=1, ops=60), ib("reloc", 1500, 40000, blob=1, ops=70), ib("drop", 300, 10000, blob=1, ops=60), ib("filter", 200, 8000, blob=1, ops=60), ia("bigblob", 6, 48)],
         "I-B on key-value-separated trees: after every op the garbage of every blob file of the current version is recomputed independently (scan of the blob file, minus the (file, offset) pairs any table points to) and compared with gc_stats (len, bytes, on_disk_bytes), stale_blob_bytes, blob_file_count; entries kept for departed files must equal that file's totals; reopen in the mix (statistics survive); non-trivial as C08",
         TECH,
         "c09_on_dropped_exact, c09_with_dropped_exact (incl. on-disk bytes; c09_with_dropped_legacy_partial records F2), c09_prune_exact, c09_stale_bytes_exact, c09_dead_iff_unreferenced, c09_relocation_exact, c09_with_merge_exact on the model of FragmentationMap / is_dead / prune_dead.",
